@@ -12,6 +12,12 @@ use crate::syntax::SyntaxConfig;
 use crate::value::Value;
 
 const MAX_RECURSION: usize = 150;
+
+/// The longest chain of operators, attribute lookups, subscripts, calls, filters
+/// and tests that can be stacked on top of each other.  Such chains are parsed by
+/// loops which the recursion limit does not see, but every item of a chain nests
+/// the expression once more and the compiler walks expressions recursively.
+const MAX_EXPR_NESTING: usize = 1000;
 const RESERVED_NAMES: [&str; 8] = [
     "true", "True", "false", "False", "none", "None", "loop", "self",
 ];
@@ -185,12 +191,16 @@ struct Parser<'a> {
     #[cfg(feature = "multi_template")]
     blocks: BTreeSet<&'a str>,
     depth: usize,
+    /// How deep the loops that parse chains have nested the expression that was
+    /// parsed most recently (see `MAX_EXPR_NESTING`).
+    expr_nesting: usize,
 }
 
 macro_rules! binop {
     ($func:ident, $next:ident, { $($tok:tt)* }) => {
         fn $func(&mut self) -> Result<ast::Expr<'a>, Error> {
             let span = self.stream.current_span();
+            let outer_nesting = mem::replace(&mut self.expr_nesting, 0);
             let mut left = ok!(self.$next());
             loop {
                 let op = match ok!(self.stream.current()) {
@@ -199,11 +209,13 @@ macro_rules! binop {
                 };
                 ok!(self.stream.next());
                 let right = ok!(self.$next());
+                ok!(self.nest_expr());
                 left = ast::Expr::BinOp(Spanned::new(
                     ast::BinOp { op, left, right, },
                     self.stream.expand_span(span),
                 ));
             }
+            self.expr_nesting = self.expr_nesting.max(outer_nesting);
             Ok(left)
         }
     };
@@ -267,6 +279,7 @@ impl<'a> Parser<'a> {
             #[cfg(feature = "multi_template")]
             blocks: BTreeSet::new(),
             depth: 0,
+            expr_nesting: 0,
         }
     }
 
@@ -301,8 +314,23 @@ impl<'a> Parser<'a> {
         self.stream.tokenizer.filename()
     }
 
+    /// Called by the loops that parse chains whenever they wrap the expression
+    /// parsed so far into another node.
+    ///
+    /// A function with such a loop resets `expr_nesting` on entry and leaves the
+    /// larger of its own and the previous value behind, so that the counter holds
+    /// the longest chain on any path through the expression parsed last.
+    fn nest_expr(&mut self) -> Result<(), Error> {
+        self.expr_nesting += 1;
+        if self.expr_nesting > MAX_EXPR_NESTING {
+            syntax_error!("expression is nested too deeply");
+        }
+        Ok(())
+    }
+
     fn parse_ifexpr(&mut self) -> Result<ast::Expr<'a>, Error> {
         let mut span = self.stream.last_span();
+        let outer_nesting = mem::replace(&mut self.expr_nesting, 0);
         let mut expr = ok!(self.parse_or());
         loop {
             if skip_token!(self, Token::Ident("if")) {
@@ -312,6 +340,7 @@ impl<'a> Parser<'a> {
                 } else {
                     None
                 };
+                ok!(self.nest_expr());
                 expr = ast::Expr::IfExpr(Spanned::new(
                     ast::IfExpr {
                         test_expr: expr2,
@@ -325,6 +354,7 @@ impl<'a> Parser<'a> {
                 break;
             }
         }
+        self.expr_nesting = self.expr_nesting.max(outer_nesting);
         Ok(expr)
     }
 
@@ -430,9 +460,12 @@ impl<'a> Parser<'a> {
 
     fn parse_unary(&mut self) -> Result<ast::Expr<'a>, Error> {
         let span = self.stream.current_span();
+        let outer_nesting = mem::replace(&mut self.expr_nesting, 0);
         let mut expr = ok!(self.parse_unary_only());
         expr = ok!(self.parse_postfix(expr, span));
-        self.parse_filter_expr(expr)
+        expr = ok!(self.parse_filter_expr(expr));
+        self.expr_nesting = self.expr_nesting.max(outer_nesting);
+        Ok(expr)
     }
 
     fn parse_postfix(
@@ -530,6 +563,7 @@ impl<'a> Parser<'a> {
                 }
                 _ => break,
             }
+            ok!(self.nest_expr());
             span = next_span;
         }
         Ok(expr)
@@ -569,6 +603,7 @@ impl<'a> Parser<'a> {
                     } else {
                         Vec::new()
                     };
+                    ok!(self.nest_expr());
                     expr = ast::Expr::Filter(Spanned::new(
                         ast::Filter {
                             name,
@@ -610,6 +645,7 @@ impl<'a> Parser<'a> {
                     } else {
                         Vec::new()
                     };
+                    ok!(self.nest_expr());
                     expr = ast::Expr::Test(Spanned::new(
                         ast::Test { name, expr, args },
                         self.stream.expand_span(span),
@@ -904,8 +940,10 @@ impl<'a> Parser<'a> {
         }
         let mut rv = ast::Expr::Var(ast::Spanned::new(ast::Var { id }, span));
         if dotted {
+            let outer_nesting = mem::replace(&mut self.expr_nesting, 0);
             while skip_token!(self, Token::Dot) {
                 let (attr, span) = expect_token!(self, Token::Ident(name) => name, "identifier");
+                ok!(self.nest_expr());
                 rv = ast::Expr::GetAttr(ast::Spanned::new(
                     ast::GetAttr {
                         expr: rv,
@@ -914,6 +952,7 @@ impl<'a> Parser<'a> {
                     span,
                 ));
             }
+            self.expr_nesting = self.expr_nesting.max(outer_nesting);
         }
         Ok(rv)
     }
@@ -1157,6 +1196,7 @@ impl<'a> Parser<'a> {
 
     fn parse_filter_chain(&mut self) -> Result<ast::Expr<'a>, Error> {
         let mut filter = None;
+        let outer_nesting = mem::replace(&mut self.expr_nesting, 0);
 
         while !matches_token!(self, Token::BlockEnd) {
             if filter.is_some() {
@@ -1168,6 +1208,7 @@ impl<'a> Parser<'a> {
             } else {
                 Vec::new()
             };
+            ok!(self.nest_expr());
             filter = Some(ast::Expr::Filter(Spanned::new(
                 ast::Filter {
                     name,
@@ -1177,6 +1218,7 @@ impl<'a> Parser<'a> {
                 self.stream.expand_span(span),
             )));
         }
+        self.expr_nesting = self.expr_nesting.max(outer_nesting);
 
         filter.ok_or_else(|| syntax_error(Cow::Borrowed("expected a filter")))
     }
